@@ -165,8 +165,23 @@ Fixpoint assoc_str {A} (k : string) (l : list (string * A)) : option A :=
 
 Definition mem_str (k : string) (l : list string) : bool := existsb (String.eqb k) l.
 
-(* one value of the user's filter dict: a 2-tuple (op, value), or anything else *)
-Inductive cond := CPlain (a : parg) | CPair (k : okey) (a : parg).
+(* An argument that is an ITERABLE other than a list / tuple / str.  What matters of such an object is what iterating it
+   yields, and how often it can be iterated:
+     IAgain   set, frozenset, dict view, range, deque ...: the same elements every time
+     IOnce    iterator, generator, map / zip object: its elements ONCE -- every later iteration yields nothing
+     IMap     dict (any Mapping): its KEYS *)
+Inductive iterk := IAgain | IOnce | IMap.
+
+(* `for v in x` the n-th time (n = 0: the first) *)
+Definition iterate (ik : iterk) (vs : list value) (n : nat) : list value :=
+  match ik, n with
+  | IOnce, S _ => []
+  | _, _ => vs
+  end.
+
+(* one value of the user's filter dict: a 2-tuple (op, value) -- the value a scalar / list / tuple (`parg`) or some other
+   iterable yielding `vs` --, or anything else *)
+Inductive cond := CPlain (a : parg) | CPair (k : okey) (a : parg) | CPairIter (k : okey) (ik : iterk) (vs : list value).
 Definition pyfilter := list (Z * cond).
 
 (* filters.FilterExpression *)
@@ -201,6 +216,21 @@ Definition text_value_set (op : fop) (a : parg) : bool :=
 Definition key_is (p : string -> bool) (k : okey) : bool :=
   match k with OpStr s => p (lower s) | OpOther => false end.
 
+(* `if op in (IN, NOT_IN): if isinstance(value, Mapping): raise ...; value = list(value)` (repaired: the value set used to
+   be kept as given and iterated TWICE -- by _build_condition, then by _file_may_match -- so that a one-shot iterable was
+   empty for pruning, which then skipped every file; a dict was read as its keys).  The FilterExpression holds the LIST of
+   the values the argument yields the first -- and only -- time it is iterated; list(scalar) raises TypeError. *)
+Definition value_set (op : fop) (a : parg) : res parg :=
+  match op, a with
+  | IN, AVal _ | NOT_IN, AVal _ => Err EParse
+  | _, _ => Ok a
+  end.
+Definition value_set_iter (op : fop) (ik : iterk) (vs : list value) : res parg :=
+  match op, ik with
+  | IN, IMap | NOT_IN, IMap => Err EParse
+  | _, _ => Ok (AList (iterate ik vs 0))
+  end.
+
 Definition parse_one (c : Z) (cd : cond) : res (list pexpr) :=
   match cd with
   | CPair k a =>
@@ -212,7 +242,17 @@ Definition parse_one (c : Z) (cd : cond) : res (list pexpr) :=
     else if key_is (fun s => mem_str s is_not_null_aliases) k then
       if flag_true a then Ok [ {| pcol := c; pop := IS_NOT_NULL; pval := AVal VNull |} ] else Err EParse
     else bind (parse_op k) (fun op =>
-      if text_value_set op a then Err EParse else Ok [ {| pcol := c; pop := op; pval := a |} ])
+      if text_value_set op a then Err EParse
+      else bind (value_set op a) (fun a' => Ok [ {| pcol := c; pop := op; pval := a' |} ]))
+  (* an iterable that is neither list nor tuple: not a (lo, hi) pair, not the flag True; a value set for in / not_in
+     unless it is a mapping.  As the literal of a comparison it stays what it is -- pyarrow refuses it like a list
+     literal (when the expression is built or when it is evaluated; PA decides which) -- and is held as the list. *)
+  | CPairIter k ik vs =>
+    if key_is (String.eqb between_key) k then Err EParse
+    else if key_is (fun s => mem_str s is_null_aliases) k then Err EParse
+    else if key_is (fun s => mem_str s is_not_null_aliases) k then Err EParse
+    else bind (parse_op k) (fun op =>
+      bind (value_set_iter op ik vs) (fun a' => Ok [ {| pcol := c; pop := op; pval := a' |} ]))
   | CPlain (AVal VNull) => Err EParse
   | CPlain a => Ok [ {| pcol := c; pop := EQ; pval := a |} ]
   end.
